@@ -5,6 +5,12 @@
 //! `selftest`), round trips, symmetry laws, a reference table of published (a, 1/f).
 //! Generated: every built-in table entry (exhaustive, through the verif_hooks enumeration)
 //! on deterministic lattices, plus random (a, 1/f >= 150) ellipsoids and random points.
+//!
+//! Registered findings (findings_inbox/C06-*.md):
+//!  * `rectifying-scaled-by-Qn` (known): the "rectifying latitude" is Qn times the rectifying
+//!    latitude; asserted by definition in section `rectifying-definition` only, everywhere else
+//!    compared modulo Qn (counter excluded_known).
+//!  * `geodesic-inv-equatorial-nan` (fixed by 0e2e174): section `geodesic-equatorial`.
 
 use geodesy::prelude::*;
 use proptest::prelude::*;
@@ -127,12 +133,6 @@ impl W {
             }
             None => self.v.push((name, val, ratio)),
         }
-        if calibrating() {
-            if ratio > 0.4 && !name.starts_with("identity") {
-                eprintln!("CAL {name} val={val:e} tol={tol:e}");
-            }
-            return false;
-        }
         !(val <= tol)
     }
     fn flush(&self, rec: &mut Rec) {
@@ -143,10 +143,6 @@ impl W {
     }
 }
 
-fn calibrating() -> bool {
-    static C: std::sync::OnceLock<bool> = std::sync::OnceLock::new();
-    *C.get_or_init(|| std::env::var("C06_CALIBRATE").is_ok())
-}
 
 // ---- ellipsoids ---------------------------------------------------------------------------
 
@@ -280,7 +276,7 @@ fn check_curvature(e: &E, lats: &[f64], w: &mut W) -> CaseResult {
         if w.over("M vs closed form (rel)", rel(m, mr), 64.0 * EPS) || w.over("N vs closed form (rel)", rel(n, nr), 32.0 * EPS) {
             vfail!("curvature-closed-form", "ellipsoid {} lat={phi:?}: M={m:?} N={n:?}, closed forms {mr:?} {nr:?}", e.label);
         }
-        vensure!(calibrating() || (n >= m * (1.0 - 8.0 * EPS) && m > 0.0), "curvature-order", "ellipsoid {} lat={phi:?}: expected 0 < M <= N, got M={m:?} N={n:?}", e.label);
+        vensure!((n >= m * (1.0 - 8.0 * EPS) && m > 0.0), "curvature-order", "ellipsoid {} lat={phi:?}: expected 0 < M <= N, got M={m:?} N={n:?}", e.label);
     }
     let Some(text) = &e.text else { return Ok(()) };
     let mut ctx = Minimal::new();
@@ -622,7 +618,7 @@ fn check_latitudes(c: &LatCase, rec: &mut Rec) -> CaseResult {
         let g = |x: f64| aux.inv(&e, k, x);
         // fixed points
         let (f0, g0) = (f(0.0), g(0.0));
-        vensure!(calibrating() || (f0.abs() <= 1e-15 && g0.abs() <= 1e-15), format!("latitude-{kind}-zero"), "{}: {kind} latitude of 0 is {f0:?}, inverse of 0 is {g0:?} (expected 0)", e.label);
+        vensure!((f0.abs() <= 1e-15 && g0.abs() <= 1e-15), format!("latitude-{kind}-zero"), "{}: {kind} latitude of 0 is {f0:?}, inverse of 0 is {g0:?} (expected 0)", e.label);
         if k != 5 {
             for sg in [1.0, -1.0] {
                 let (fp, gp) = (f(sg * FRAC_PI_2), g(sg * FRAC_PI_2 * s));
@@ -643,10 +639,10 @@ fn check_latitudes(c: &LatCase, rec: &mut Rec) -> CaseResult {
             let phi2 = phi + STEP;
             if phi2 <= FRAC_PI_2 {
                 let x2 = f(phi2);
-                vensure!(calibrating() || x2 > x, format!("latitude-{kind}-monotone"), "{}: {kind} latitude not increasing: f({phi:?}) = {x:?}, f({phi2:?}) = {x2:?}", e.label);
+                vensure!(x2 > x, format!("latitude-{kind}-monotone"), "{}: {kind} latitude not increasing: f({phi:?}) = {x:?}, f({phi2:?}) = {x2:?}", e.label);
                 if k != 5 {
                     let (y, y2) = (g(phi * s), g(phi2 * s));
-                    vensure!(calibrating() || y2 > y, format!("latitude-{kind}-inverse-monotone"), "{}: inverse {kind} latitude not increasing: g({:?}) = {y:?}, g({:?}) = {y2:?}", e.label, phi * s, phi2 * s);
+                    vensure!(y2 > y, format!("latitude-{kind}-inverse-monotone"), "{}: inverse {kind} latitude not increasing: g({:?}) = {y:?}, g({:?}) = {y2:?}", e.label, phi * s, phi2 * s);
                 }
             }
             // round trips
@@ -744,7 +740,7 @@ fn check_meridian(c: &LatCase, rec: &mut Rec) -> CaseResult {
     let tol_rad = 4.0 * n4 + 64.0 * EPS;
     let d = |phi: f64| e.lib.meridian_latitude_to_distance(phi);
     let l = |m: f64| e.lib.meridian_distance_to_latitude(m);
-    vensure!(calibrating() || (d(0.0).abs() <= 1e-9 * e.sc && l(0.0).abs() <= 1e-15), "meridian-zero", "{}: distance(0) = {:?}, latitude(0) = {:?}", e.label, d(0.0), l(0.0));
+    vensure!((d(0.0).abs() <= 1e-9 * e.sc && l(0.0).abs() <= 1e-15), "meridian-zero", "{}: distance(0) = {:?}, latitude(0) = {:?}", e.label, d(0.0), l(0.0));
     for sg in [1.0, -1.0] {
         let (dp, lp) = (d(sg * FRAC_PI_2), l(sg * q));
         if w.over("pole <-> quadrant (m)", (dp - sg * q).abs().max((lp - sg * FRAC_PI_2).abs() * a), 64.0 * EPS * a) {
@@ -758,7 +754,7 @@ fn check_meridian(c: &LatCase, rec: &mut Rec) -> CaseResult {
             vfail!("meridian-distance-quadrature", "{}: meridian_latitude_to_distance({phi:?}) = {m:?}, quadrature of M gives {want:?} (tolerance 0.6 a n^4 = {tol_m:e} m)", e.label);
         }
         let mm = d(-phi);
-        vensure!(calibrating() || (m + mm).abs() <= 8.0 * EPS * a, "meridian-odd", "{}: distance({phi:?}) = {m:?}, distance({:?}) = {mm:?}", e.label, -phi);
+        vensure!((m + mm).abs() <= 8.0 * EPS * a, "meridian-odd", "{}: distance({phi:?}) = {m:?}, distance({:?}) = {mm:?}", e.label, -phi);
         let back = l(m);
         if w.over("latitude(distance(phi)) (rad)", (back - phi).abs(), tol_rad) {
             vfail!("meridian-roundtrip", "{}: phi={phi:?} -> {m:?} m -> {back:?}: {:e} rad off (tolerance 4 n^4 = {tol_rad:e})", e.label, (back - phi).abs());
@@ -773,7 +769,7 @@ fn check_meridian(c: &LatCase, rec: &mut Rec) -> CaseResult {
         }
         let phi2 = phi + 1e-6;
         if phi2 <= FRAC_PI_2 {
-            vensure!(calibrating() || d(phi2) > m, "meridian-monotone", "{}: distance not increasing at {phi:?}", e.label);
+            vensure!(d(phi2) > m, "meridian-monotone", "{}: distance not increasing at {phi:?}", e.label);
         }
     }
     w.flush(rec);
@@ -1255,9 +1251,11 @@ fn main() {
     run.assume("lengths in generated cases (heights, geodesic distances) are for an Earth-sized ellipsoid and are multiplied by a/6378137; length tolerances are multiplied by min(1, a/6378137): the algorithms are scale free");
     run.assume("the domain of geodesics is distance <= 19000 km x a/6378137 (spherical separation < 172 deg): Vincenty's documented near-antipodal non-convergence zone is excluded by construction");
     run.assume("azimuth comparisons are made in metres across track (azimuth difference x reduced length) with an allowance 8 eps a / cos(lat) for the inherent ill-conditioning of azimuths near the poles");
-    run.assume("the closed-form inverse (Bowring) is held to 1 cm and the cart operator to 1 um at heights -10..100 km as stated; at 100 km..1e7 m the statement gives no figure: 1 mm (operator) and 1 m (closed form) are used");
+    run.assume("the closed-form inverse (Bowring) is held to 1 cm and the cart operator to 1 um at heights -10..100 km as stated; at 100 km..1e7 m the statement gives no figure: the measured error laws of the two methods with a margin of 5 are used, 1 um + 1.5 a f^4 (h/a)^2 (operator; 0.36 mm observed for GRS80 at 1e7 m) and 1 cm + 2 f^3 h (closed form; 14 cm observed)");
     run.assume("the six auxiliary latitudes are geocentric, reduced(=parametric), conformal, authalic, rectifying and isometric; the isometric latitude is unbounded, so 'fixes the poles' is not applied to it");
     run.assume("published 1/f: agreement to the published decimals (half a unit of the last one, at most 1e-7 relative); 1e-7 relative for the six ellipsoids PROJ defines through b; semi-major axis to 0.05 mm");
+    run.assume("tolerances of the approximate methods follow their order: Bowring's meridian formulas 0.6 a n^4 against quadrature and 4 n^4 rad round trip (observed 0.12 and 1.1), Vincenty against quadrature 0.6 n^4 min(s, a) + 0.2 um (observed 0.13), direct/inverse consistency 50 um (the inverse stops its longitude iteration at 1e-12 rad = 6.4 um; observed 7 um)");
+    run.assume("a direct-problem start within 1e-7 rad of the equator with azimuth exactly +-90 deg is generated in section geodesic-equatorial only (it was the NaN class repaired by commit 0e2e174)");
     run.assume("auxiliary latitudes are compared with their closed forms for |lat| <= 89.9 deg (asin and atanh are ill-conditioned at the pole); fixed points, oddness, monotonicity and round trips are checked up to the poles");
 
     let table = library_table();
